@@ -144,8 +144,9 @@ def erase {α} (s : Scope α) (k : String) : Scope α :=
   | [] => []
   | (k', c') :: t => if k' = k then t else (k', c') :: erase t k
 
-/-- CursorMap key -/
-def key (name : String) : String := name.toUpper
+/-- CursorMap key: `strings.ToUpper(name)` (cursor names are ASCII identifiers in the harness; written with
+    `toList`/`ofList` so that the kernel can evaluate it in the examples) -/
+def key (name : String) : String := String.ofList (name.toList.map Char.toUpper)
 
 inductive Op (α : Type)
   | declare (name : String)
